@@ -217,6 +217,39 @@ def evaluator_part(chk, tier, seed, programs):
     chk.sample({"program": programs[0][0], "schedules": sch[:4]}, limit=8)
 
 
+def temporaries():
+    """Temporaries that live ONLY on the evaluator's stacks while other work (and collections) goes on:
+    an object / array literal whose fields were already forced (so that scopes derived from its own
+    environment exist) is one operand, argument or element; the other one is evaluated next."""
+    pre = ("local force(o) = if std.length(std.manifestJsonMinified(o)) >= 0 then o else o; "
+           "local touch(o) = if std.length(std.toString(o.a)) >= 0 then o else o; "
+           "local work(n) = std.foldl(function(a, i) a + i, std.range(1, n), 0); ")
+    temps = [
+        "{ a: local t = 20; [t + 1, t + 2], c: 5 }",
+        "{ a: [x * 2 for x in [1, 2, 3]], c: self.a[0] }",
+        "{ local u = 7, a: [{ b: u + 1, d: $.c }, u], c: 5 }",
+        "{ a: (function(p) [p, { q: p + 1 }])(4), c: 5 }",
+        "{ a: [self.c, super.c] } + { c: 5 }" if False else "({ c: 4 } + { a: [self.c, super.c + 1], c: 5 })",
+        "{ [k]: [k, k + k] for k in ['a', 'c'] }",
+    ]
+    uses = [
+        "{F}({T}) + (if work(300) > 0 then {{ b: [self.a[1], self.c] }} else {{}})",
+        "[{F}({T}), work(300)][0].a",
+        "(function(o, n) [o.a, o.c, n])({F}({T}), work(300))",
+        "{F}({T}) == (if work(300) > 0 then {T} else null)",
+        "local r = {F}({T}) + {{ z: work(300) }}; [r.z, r.a, r.c]",
+        "std.length(std.objectFields({F}({T}) + {{ [if work(300) > 0 then 'n' else 'm']: 1 }}))",
+        "[f for f in std.objectFields({F}({T}) + {{ w: 1 }}) if work(100) > 0]",
+        "{F}({T}) {{ b: [work(300), super.a, self.c] }}",
+    ]
+    out = []
+    for ti, t in enumerate(temps):
+        for ui, u in enumerate(uses):
+            for f in ("force", "touch"):
+                out.append((f"gen:temp:{ti}:{ui}:{f}", (pre + u.replace("{F}", f).replace("{T}", t).replace("{{", "{").replace("}}", "}")).encode()))
+    return out
+
+
 def cli_deep_part(chk, tier, seed):
     """Deep live structures through the real binary with its default collection heuristic: the collector
     must cope with a reference chain of any depth (its mark phase works on a queue, not the native stack)."""
@@ -280,6 +313,7 @@ def run(tier, seed):
         progs.append((f"gen:deeplist:{d}", (f"local l = std.foldl(function(acc, i) {{ next: acc, v: i }}, std.range(1, {d}), null); "
                                             f"local len(n, k) = if n == null then k else len(n.next, k + 1) tailstrict; len(l, 0)").encode()))
         progs.append((f"gen:deeparr:{d}", f"local a = std.foldl(function(acc, i) [acc], std.range(1, {d}), 0); std.length(a)".encode()))
+    progs += temporaries()
     inh = c07.gen(chk, "large", "identity", 0, seed) + c07.gen(chk, "small", "triples", 120 if tier == "quick" else 1500, seed)
     progs += [(f"inh:{i}", ("local o = " + c["srcs"][-1] + "; [o, o + {}, std.objectFields(o)]").encode()) for i, c in enumerate(inh)]
     evaluator_part(chk, tier, seed, progs)
